@@ -527,12 +527,49 @@ def main(replay=None):
                 nmis += 1
                 ck.violation("om_assemble %s with present name %r" % (opt, nm), "om_assemble %s ... with the present name \"%s\" exited with status %s" % (opt, nm, status), dict(kind="tool", tool="om_assemble", option=opt, name=nm, status=status))
 
+
+    # ---------------- (i) lookups on a reused Geometry object (load A, look every name up, load B into the same object) -----------
+    rdist = {}; rmis = 0
+    if rp is None or rp.get("kind") == "reuse":
+        mA = models.nested([0.7, 0.8, 0.9, 1.0], [1.0, 0.0125, 1.0, 0.3], level=0, names=["cortex", "csf", "skull", "scalp"])
+        mB = models.nested([0.8, 1.0], [1.0, 0.3], level=1, names=["inner", "scalp"])
+        for mm, pre in ((mB, "R"),):       # B's interfaces / domains get their own names so that A's are absent in B
+            mm["interfaces"] = [(pre + n, ms) for n, ms in mm["interfaces"]]
+            mm["domains"] = [(pre + n if n != "Air" else n, [(sg, pre + i) for sg, i in bs]) for n, bs in mm["domains"]]
+            mm["cond"] = {(pre + k if k != "Air" else k): v for k, v in mm["cond"].items()}
+        gA, cA = models.write_model(mA, os.path.join(wd, "reuseA")); gB, cB = models.write_model(mB, os.path.join(wd, "reuseB"))
+        namesA = sorted(set([x[0] for x in mA["meshes"]] + [x[0] for x in mA["interfaces"]] + [x[0] for x in mA["domains"]]))
+        presB = dict(mesh=[x[0] for x in mB["meshes"]], interface=[x[0] for x in mB["interfaces"]], domain=[x[0] for x in mB["domains"]])
+        nvB = {x[0]: len(x[1]) for x in mB["meshes"]}
+        tblr = sorted(set(namesA + sum(presB.values(), []))) + ["", "nosuch", "Scalp", "scalp ", "inne"]
+        envr = {"C18_GEOM": gA, "C18_COND": cA, "C18_GEOM_B": gB, "C18_COND_B": cB, "C18_NAMES": "\x1f".join(tblr)}
+        rcs = ["c18 11 %d %d" % (kd, k) for kd in range(4) for k in range(len(tblr))]
+        if rp is not None: rcs = rp["cases"]
+        idr = {sname: k for k, sname in enumerate(tblr)}
+        rmodel = ["c18 2 %d %s" % (idr[tblr[int(c.split()[3])]], " ".join(str(idr[x]) for x in presB[["mesh", "mesh", "interface", "domain"][int(c.split()[2])]])) for c in rcs]
+        rm = core.run_model(rmodel); rc, ro, err = core.run_harness(hb, rcs, wd, tag="ru", env=envr)
+        for c, m, o in zip(rcs, rm, ro):
+            kd, k = int(c.split()[2]), int(c.split()[3]); cat = ["mesh", "mesh", "interface", "domain"][kd]; nm = tblr[k]
+            rdist["reused " + ["mesh()", "mesh() const", "interface()", "domain()"][kd]] = rdist.get("reused " + ["mesh()", "mesh() const", "interface()", "domain()"][kd], 0) + 1
+            t = o.split(); mt = m.split(); what = None
+            if o.startswith("CRASH"): what = "crashed"
+            elif mt[0] != "0" and t[0] == "0": what = "returned an object (position %s) although the name is absent from the model now loaded" % t[1]
+            elif t[0] == "9": what = "returned the object at position %s, which carries another name" % t[1]
+            elif mt[0] == "0" and t[0] != "0": what = "threw although the name is present"
+            elif mt[0] == "0" and cat != "interface" and t[1] != mt[1]: what = "returned position %s instead of %s" % (t[1], mt[1])
+            elif mt[0] == "0" and cat == "mesh" and int(t[2]) != nvB[nm]: what = "returned a mesh with %s vertices instead of %d" % (t[2], nvB[nm])
+            if what:
+                rmis += 1
+                ck.violation("reused Geometry::%s(%r)" % (cat, nm), "after load(A: %s), a lookup of every name and load(B: %s) into the same object, Geometry::%s(\"%s\") %s; required: %s" % (
+                                 [x[0] for x in mA["meshes"]], presB, cat, nm, what, "throw" if mt[0] != "0" else "the %s of that name" % cat),
+                             dict(kind="reuse", cases=[c], model=[m], impl=[o], names=tblr))
+
     res = ck.proof_result
-    ck.cov.update(evaluations=len(acases) + sum(ldist.values()) + wn + 1 + sum(sdist.values()) + sum(xdist.values()) + len(gdist) + sum(fdist.values()) + sum(ndist.values()), distinct_nontrivial=len(set(acases)) + sum(ldist.values()) + wn,
+    ck.cov.update(evaluations=len(acases) + sum(ldist.values()) + wn + 1 + sum(sdist.values()) + sum(xdist.values()) + len(gdist) + sum(fdist.values()) + sum(ndist.values()) + sum(rdist.values()), distinct_nontrivial=len(set(acases)) + sum(ldist.values()) + wn,
                   rule="accessor cases: (method, nlin, ncol, arguments) with arguments aimed at the guard boundary (n-1, n, n+1, 2^31, 2^32-1, 2^32-n, 65535/65536, wrap-around ranges), shapes 0..%d, ~60%% expected to throw; lookups: every present name and 12 near-miss names on 4 lookup functions; I/O: prepared paths x entry points; write faults: every stream writer x 2 sizes x (boundary + random byte limits, /dev/full, missing directory); distinct = distinct case lines" % (7 if quick else 40),
                   samples=acases[:2] + ["c18 2 <kind> <name>", "c18 4 <kind> <fmt> <n> <k bytes>"], op_distribution=adist, expected_throws=throws,
                   accessor_mismatches=amis, lookup_io_distribution=ldist, lookup_io_mismatches=lmis,
-                  write_fault_distribution=wdist, write_fault_cases=wn, write_fault_mismatches=wmis, write_fault_file_size_equals_model=wexact, suffix_selection_distribution=sdist, suffix_selection_mismatches=smis, other_writers_distribution=xdist, other_writers_mismatches=xmis, singular_matrices=gdist, load_state_distribution=fdist, load_state_mismatches=fmis, named_entry_points=ndist, named_entry_mismatches=nmis,
+                  write_fault_distribution=wdist, write_fault_cases=wn, write_fault_mismatches=wmis, write_fault_file_size_equals_model=wexact, suffix_selection_distribution=sdist, suffix_selection_mismatches=smis, other_writers_distribution=xdist, other_writers_mismatches=xmis, singular_matrices=gdist, load_state_distribution=fdist, load_state_mismatches=fmis, named_entry_points=ndist, named_entry_mismatches=nmis, reused_geometry=rdist, reused_geometry_mismatches=rmis,
                   big_symmatrix_witness=big, traces_validated_against_impl=len(acases) + sum(ldist.values()) + wn)
     ck.cov["trusted_base"] += ["translator translators/t_accessors.py (restricted C++ expression grammar -> Gallina with explicit 2^32 / 2^64 reduction); validated each run by evaluating the generated definitions against the real calls",
                                "outcome-class models coq/Geom/Lookups.v, coq/Maths/WriteFault.v (hand-written, tied by the sweeps)",
